@@ -26,8 +26,14 @@ PARTIAL = [
     "pinword_contains(w,u)) - NOT proved; evaluated as a BOUNDED TEST, both directions, by op pw_pcont "
     "(quick: strict |w|<=5, all |w|<=4, all sigma with |sigma|<=4; thorough: strict <=7 (sigma<=5 for |w|=6), all <=5) "
     "and re-checked with the harness's own gap filter over the real pinword_occurrences output (pw_pcontnt). "
-    "Passes since repository fix ff59958 (finding C14-touch: touching factors on a direction letter were accepted)",
-    "nfa_vs_occurrences (A5') - not attempted here (belongs with C15)",
+    "Passes since repository fix ff59958 (finding C14-touch: touching factors on a direction letter were accepted). "
+    "Its cross-consistency with C15 is no longer partial: A5' nfa_vs_occurrences is PROVED (Props/C14.lean "
+    "helpers_agree_C15, nfa_vs_occurrences, nfa_vs_occurrences_M, nfa_vs_occurrences_general; Lemmas/C14C15.lean): for every "
+    "strict pin word w of the language, every m in sp_to_m(w) and every string u not starting with a direction letter, "
+    "pinword_contains(w,u) is True iff the C15 model NFA of make_nfa_for_pinword(u) accepts m, and for every pin word w "
+    "(several numerals) the same factor by factor - so this statement and C15's accepts_iff_contains are one open statement "
+    "(for u starting with a direction letter - not a pin word - the two differ: quadrant(u,0) raises KeyError, the NFA "
+    "searches the letters of u)",
 ]
 TRUSTED = ["fractions.Fraction == exact rational arithmetic (Lean core Rat)"]
 
